@@ -88,90 +88,15 @@ pub open spec fn same_but_ecu(a: DltMessage, b: DltMessage) -> bool {
 //@|    let ghost k0 = msg.ecu;
 //@ end
 
-// ---- CTID pseudonyms: the statement `let new_ctid = if apid_data.ctid_map.contains_key(cur_ctid) { .. } else { .. };` of
-// AnonymizePlugin::apid_ctid_anon (one map per ECU and APID; same numbering scheme with prefix "C") ----
-pub trait VCtidMap: Sized {
-    spec fn m(&self) -> Map<DltChar4, DltChar4>;     // CTID -> pseudonym
-    fn contains_key(&self, k: &DltChar4) -> (r: bool) ensures r == self.m().dom().contains(*k);
-    fn get(&self, k: &DltChar4) -> (r: Option<&DltChar4>)
-        ensures r is Some <==> self.m().dom().contains(*k), r is Some ==> *r->Some_0 == self.m()[*k];
-    fn len(&self) -> (r: usize) requires self.m().dom().finite(), ensures r == self.m().dom().len();
-    fn insert(&mut self, k: DltChar4, v: DltChar4) ensures final(self).m() == old(self).m().insert(k, v);
-}
-pub open spec fn ctid_wf<M: VCtidMap>(mp: &M) -> bool {
-    &&& mp.m().dom().finite()
-    &&& forall|k: DltChar4| mp.m().dom().contains(k) ==> exists|i: int| 1 <= i <= mp.m().dom().len() && #[trigger] spec_pseudo(0x43, i) == mp.m()[k]
-}
-pub open spec fn ctid_injective<M: VCtidMap>(mp: &M) -> bool {
-    forall|a: DltChar4, b: DltChar4| mp.m().dom().contains(a) && mp.m().dom().contains(b) && #[trigger] mp.m()[a] == #[trigger] mp.m()[b] ==> a == b
-}
+// the pieces of the CTID / APID numbering expressions (prefix "C" resp. "A"), as for the ECU map above
 #[verifier::external_body]
 pub fn vx_fmt_c03(n: usize) -> (r: VxText) ensures r.n == n { unimplemented!() }
 #[verifier::external_body]
 pub fn vx_ctid_from_text(t: &VxText) -> (r: VxChar4Result) ensures r.v == spec_pseudo(0x43, t.n as int) { unimplemented!() }
-//@ extract src/plugins/anonymize.rs region `let new_ctid = if` .. `let new_ctid = if` in AnonymizePlugin::apid_ctid_anon
-//@   rules R1 R3 R4 R5
-//@   sig pub fn ctid_anon<M: VCtidMap>(ctid_map: &mut M, cur_ctid: &DltChar4) -> (r: DltChar4)
-//@   tail `new_ctid`
-//@   sub R12 `apid_data.ctid_map` => `ctid_map` *
-//@   sub R11 `DltChar4::from_str(` => `vx_ctid_from_text(`
-//@   sub R11 `format!("C{:03}",` => `vx_fmt_c03(`
-//@   sub R11 `.unwrap_or_else(|_| DltChar4::from_buf(b"C99A"))` => `.vx_or_fallback()`
-//@   spec
-//@|    requires
-//@|        ctid_wf(old(ctid_map)), ctid_injective(old(ctid_map)),
-//@|        old(ctid_map).m().dom().len() < 0x1_0000_0000,
-//@|        old(ctid_map).m().dom().len() < 999, //@only:excl
-//@|    ensures
-//@|        ctid_wf(final(ctid_map)), // O:anon.ctid.wf
-//@|        final(ctid_map).m().dom().contains(*cur_ctid) && r == final(ctid_map).m()[*cur_ctid], // O:anon.ctid.function
-//@|        forall|k: DltChar4| old(ctid_map).m().dom().contains(k) ==> final(ctid_map).m().dom().contains(k) && final(ctid_map).m()[k] == old(ctid_map).m()[k], // O:anon.ctid.stable
-//@|        ctid_injective(final(ctid_map)), // O:anon.ctid.injective
-//@   hint start
-//@|    broadcast use axiom_pseudo_injective, axiom_pseudo_truncated;
-//@ end
-
-// ---- APID pseudonyms: the statement `if !apid_map.contains_key(cur_apid) { .. insert .. }` of apid_ctid_anon (one map per ECU;
-// prefix "A"); `ApidData { apid, ctid_map: HashMap::new() }` is replaced by a stand-in carrying the pseudonym (R12) ----
-pub struct VxApidData { pub apid: DltChar4 }
-pub fn vx_new_apid_data(apid: DltChar4) -> (r: VxApidData) ensures r.apid == apid { VxApidData { apid } }
-pub trait VApidMap: Sized {
-    spec fn m(&self) -> Map<DltChar4, DltChar4>;     // APID -> pseudonym
-    fn contains_key(&self, k: &DltChar4) -> (r: bool) ensures r == self.m().dom().contains(*k);
-    fn len(&self) -> (r: usize) requires self.m().dom().finite(), ensures r == self.m().dom().len();
-    fn insert(&mut self, k: DltChar4, v: VxApidData) ensures final(self).m() == old(self).m().insert(k, v.apid);
-}
-pub open spec fn apid_wf<M: VApidMap>(mp: &M) -> bool {
-    &&& mp.m().dom().finite()
-    &&& forall|k: DltChar4| mp.m().dom().contains(k) ==> exists|i: int| 1 <= i <= mp.m().dom().len() && #[trigger] spec_pseudo(0x41, i) == mp.m()[k]
-}
-pub open spec fn apid_injective<M: VApidMap>(mp: &M) -> bool {
-    forall|a: DltChar4, b: DltChar4| mp.m().dom().contains(a) && mp.m().dom().contains(b) && #[trigger] mp.m()[a] == #[trigger] mp.m()[b] ==> a == b
-}
 #[verifier::external_body]
 pub fn vx_fmt_a03(n: usize) -> (r: VxText) ensures r.n == n { unimplemented!() }
 #[verifier::external_body]
 pub fn vx_apid_from_text(t: &VxText) -> (r: VxChar4Result) ensures r.v == spec_pseudo(0x41, t.n as int) { unimplemented!() }
-//@ extract src/plugins/anonymize.rs region `if !apid_map.contains_key(cur_apid) {` .. `if !apid_map.contains_key(cur_apid) {` in AnonymizePlugin::apid_ctid_anon
-//@   rules R1 R3 R4 R5
-//@   sig pub fn apid_anon<M: VApidMap>(apid_map: &mut M, cur_apid: &DltChar4)
-//@   sub R11 `DltChar4::from_str(` => `vx_apid_from_text(`
-//@   sub R11 `format!("A{:03}",` => `vx_fmt_a03(`
-//@   sub R11 `.unwrap_or_else(|_| DltChar4::from_buf(b"A99A"))` => `.vx_or_fallback()`
-//@   sub R12 `ApidData { apid: new_apid, ctid_map: HashMap::new(), }` => `vx_new_apid_data(new_apid)`
-//@   spec
-//@|    requires
-//@|        apid_wf(old(apid_map)), apid_injective(old(apid_map)),
-//@|        old(apid_map).m().dom().len() < 0x1_0000_0000,
-//@|        old(apid_map).m().dom().len() < 999, //@only:excl
-//@|    ensures
-//@|        apid_wf(final(apid_map)), // O:anon.apid.wf
-//@|        final(apid_map).m().dom().contains(*cur_apid), // O:anon.apid.present
-//@|        forall|k: DltChar4| old(apid_map).m().dom().contains(k) ==> final(apid_map).m().dom().contains(k) && final(apid_map).m()[k] == old(apid_map).m()[k], // O:anon.apid.stable
-//@|        apid_injective(final(apid_map)), // O:anon.apid.injective
-//@   hint start
-//@|    broadcast use axiom_pseudo_injective, axiom_pseudo_truncated;
-//@ end
 
 // ---------- apid_ctid_anon as a whole: which maps are used, what is written back ----------
 impl DltMessage {
@@ -264,6 +189,29 @@ pub proof fn lemma_pm_insert(prefix: u8, m: Map<DltChar4, DltChar4>, k: DltChar4
         else { let i = choose|i: int| 1 <= i <= m.dom().len() && #[trigger] spec_pseudo(prefix, i) == m[q]; assert(spec_pseudo(prefix, i) == m2[q]); }
     }
 }
+pub open spec fn pm_inj(m: Map<DltChar4, DltChar4>) -> bool {
+    forall|a: DltChar4, b: DltChar4| m.dom().contains(a) && m.dom().contains(b) && #[trigger] m[a] == #[trigger] m[b] ==> a == b
+}
+pub open spec fn apids_inj(mm: Map<DltChar4, Map<DltChar4, ApidV>>) -> bool { forall|e: DltChar4| mm.dom().contains(e) ==> pm_inj(apid_proj(#[trigger] mm[e])) }
+pub open spec fn ctids_inj(mm: Map<DltChar4, Map<DltChar4, ApidV>>) -> bool {
+    forall|e: DltChar4, a: DltChar4| mm.dom().contains(e) && #[trigger] mm[e].dom().contains(a) ==> pm_inj(mm[e][a].1)
+}
+pub open spec fn maps_lt999(mm: Map<DltChar4, Map<DltChar4, ApidV>>) -> bool {
+    forall|e: DltChar4| mm.dom().contains(e) ==> (#[trigger] mm[e]).dom().len() < 999 && forall|a: DltChar4| mm[e].dom().contains(a) ==> (#[trigger] mm[e][a]).1.dom().len() < 999
+}
+pub proof fn lemma_pm_insert_inj(prefix: u8, m: Map<DltChar4, DltChar4>, k: DltChar4)
+    requires pm_wf(prefix, m), pm_inj(m), !m.dom().contains(k), m.dom().len() < 999,
+    ensures pm_inj(m.insert(k, spec_pseudo(prefix, (m.dom().len() + 1) as int))),
+{
+    broadcast use axiom_pseudo_injective;
+    let n = (m.dom().len() + 1) as int;
+    let m2 = m.insert(k, spec_pseudo(prefix, n));
+    assert forall|a: DltChar4, b: DltChar4| m2.dom().contains(a) && m2.dom().contains(b) && #[trigger] m2[a] == #[trigger] m2[b] implies a == b by {
+        if a != k && b != k { assert(m[a] == m[b]); }
+        else if a == k && b != k { let i = choose|i: int| 1 <= i <= m.dom().len() && #[trigger] spec_pseudo(prefix, i) == m[b]; assert(spec_pseudo(prefix, i) == spec_pseudo(prefix, n)); }
+        else if b == k && a != k { let i = choose|i: int| 1 <= i <= m.dom().len() && #[trigger] spec_pseudo(prefix, i) == m[a]; assert(spec_pseudo(prefix, i) == spec_pseudo(prefix, n)); }
+    }
+}
 pub proof fn lemma_ecu_wf_empty()
     ensures ecu_wf(Map::<DltChar4, ApidV>::empty()),
 {
@@ -296,7 +244,12 @@ pub open spec fn same_but_ids(a: DltMessage, b: DltMessage) -> bool {
 //@   spec
 //@|    requires
 //@|        maps_wf(old(vx_self).apid_maps.m()), maps_small(old(vx_self).apid_maps.m()),
+//@|        apids_inj(old(vx_self).apid_maps.m()), ctids_inj(old(vx_self).apid_maps.m()),
+//@|        maps_lt999(old(vx_self).apid_maps.m()), //@only:excl
+//@|        // (strict variant: no bound on the number of different ids; the two injectivity clauses then fail: known findings) //@only:strict
 //@|    ensures
+//@|        apids_inj(final(vx_self).apid_maps.m()), // O:anon.apid.injective (distinct APIDs of an ECU, distinct pseudonyms)
+//@|        ctids_inj(final(vx_self).apid_maps.m()), // O:anon.ctid.injective (distinct CTIDs of an application, distinct pseudonyms)
 //@|        maps_wf(final(vx_self).apid_maps.m()), // O:anon.ac.wf
 //@|        maps_stable(old(vx_self).apid_maps.m(), final(vx_self).apid_maps.m()), // O:anon.ac.stable (APID and CTID pseudonyms once given never change)
 //@|        same_but_ids(*old(msg), *final(msg)), // O:anon.ac.frame (times, ECU, payload, lifecycle and the rest of the extended header untouched)
@@ -317,6 +270,7 @@ pub open spec fn same_but_ids(a: DltMessage, b: DltMessage) -> bool {
 //@|    proof {
 //@|        if !am0.dom().contains(a) {
 //@|            lemma_pm_insert(0x41, apid_proj(am0), a);
+//@|            if am0.dom().len() < 999 && pm_inj(apid_proj(am0)) { lemma_pm_insert_inj(0x41, apid_proj(am0), a); }
 //@|            if am1.dom().contains(a) && am1[a].1 =~= Map::<DltChar4, DltChar4>::empty() && am1 == am0.insert(a, am1[a]) && am1[a].0 == spec_pseudo(0x41, (am0.dom().len() + 1) as int) {
 //@|                assert(apid_proj(am1) =~= apid_proj(am0).insert(a, spec_pseudo(0x41, (am0.dom().len() + 1) as int)));
 //@|                assert(am1.dom() =~= am0.dom().insert(a));
@@ -328,7 +282,7 @@ pub open spec fn same_but_ids(a: DltMessage, b: DltMessage) -> bool {
 //@|    proof {
 //@|        let cm0 = am1[a].1;
 //@|        let c = *cur_ctid;
-//@|        if !cm0.dom().contains(c) { lemma_pm_insert(0x43, cm0, c); }
+//@|        if !cm0.dom().contains(c) { lemma_pm_insert(0x43, cm0, c); if cm0.dom().len() < 999 && pm_inj(cm0) { lemma_pm_insert_inj(0x43, cm0, c); } }
 //@|        let amf = am1.insert(a, dv(*apid_data));
 //@|        if dv(*apid_data).0 == am1[a].0 { assert(apid_proj(amf) =~= apid_proj(am1)); assert(amf.dom() =~= am1.dom()); }
 //@|    }
